@@ -20,6 +20,16 @@ func lightOffer(c *Ctx, w *world.World, store *[]*types.SignedHeader, class stri
 			c.Tr.Emit("LightOffer", world.F{"node": "light", "class": class, "res": "panic", "sig": "none", "h": 0, "hash": ""})
 		}
 	}()
+	// what is offered may BE the proposer's header although it was built as junk (a damaged copy whose damage the
+	// encoding does not carry, e.g. an absent all-zero sub-message): it is then labelled for what it is; and a
+	// header the store already holds is a repetition, which go-header does not admit twice
+	if cl := w.ClassifyBlob(bz); cl["kind"] == "hdr" && cl["sig"] == "P" {
+		class = "genuine"
+		last := (*store)[len(*store)-1]
+		if uint64(cl["h"].(int)) <= last.Height() {
+			class = "genuine-dup"
+		}
+	}
 	h := new(types.SignedHeader)
 	res := "admitted"
 	if err := h.UnmarshalBinary(bz); err != nil {
